@@ -88,6 +88,13 @@ CHECKS.update({
             'through generated histories against a simulated log engine; the create/append messages, every data packet, the added/started '
             'flags and the variable list after a re-add are compared with independent decoders and the device state.',
             'Block-creation decoding for protocol >= 4; legacy only single-packet; raw-memory variables are a listed known finding.'),
+    'C02': ('exploration', 'DESIGN.md 3/C02', 'dsched+simcf',
+            'Hypothesis-generated connect/fault/close/reconnect histories with generated thread schedules under a deterministic virtual-time scheduler; enumerated fault sweep over every k-th packet for both reporters, plain and SyncCrazyflie; lifecycle automaton + scheduler verdicts (deadlock, untimed wait beyond horizon, thread death)',
+            'Every point of the connection sequence is hit by a link fault (from the driver thread or from inside send_packet) or a user close '
+            'under generated interleavings of dispatcher, parameter, ping, timer and user threads; the public callback sequence is checked by '
+            'an automaton, blocking Sync calls must return, no thread may die or deadlock, and a final healthy attempt on the same object '
+            'must connect with the right tables.',
+            'Interleavings at synchronisation-operation granularity; bounded virtual horizon; two listed known findings (error reported while the dispatcher is mid-dispatch).'),
 })
 
 ALL = ['C%02d' % i for i in range(1, 21)]
